@@ -1,12 +1,151 @@
-use crate::util::Report;
-use crate::Ctx;
-use serde_json::Value;
+//! C06 — every block size is encodable; intermediate symbols satisfy all constraints.
+//! Enumerates all 477 K' x {dense, sparse} x {direct solve, plan replay} x data.
 
-pub fn run(_ctx: &Ctx, _rep: &mut Report) {
-    eprintln!("not implemented yet");
-    std::process::exit(2);
+use crate::codec::{block_cfg, make_data, symbols_of, DataClass};
+use crate::reference as rf;
+use crate::util::{catch, run_items, simple_failure, Report, SplitMix, Stats, Tier};
+use crate::Ctx;
+use raptorq::{SourceBlockEncoder, SourceBlockEncodingPlan};
+use serde_json::{json, Value};
+
+#[derive(Debug, Clone)]
+pub struct Item {
+    k: u32,
+    t: usize,
+    one_hot: bool,
+    seed: u64,
+    dense: bool,
+    sparse: bool,
 }
 
-pub fn replay(_sub: &str, _case: &Value) -> Result<(), String> {
-    Err("not implemented".into())
+fn check_item(it: &Item, st: &mut Stats) -> Result<(), String> {
+    let k = it.k;
+    let pr = rf::params(k);
+    let class = if it.one_hot { DataClass::OneHot } else { DataClass::Random };
+    let data = make_data(class, it.seed, k as usize * it.t);
+    let src = symbols_of(&data, it.t);
+    let cfg = block_cfg(k as usize, it.t);
+    let mut all: Vec<(String, Vec<Vec<u8>>)> = vec![];
+    let mut backends: Vec<(&str, u32)> = vec![];
+    if it.sparse {
+        backends.push(("sparse", 0));
+    }
+    if it.dense {
+        backends.push(("dense", u32::MAX));
+    }
+    for (name, thr) in backends {
+        // direct solve
+        let enc = catch(|| SourceBlockEncoder::verif_new_unplanned(0, &cfg, &data, thr))
+            .map_err(|p| format!("K={k} (K'={}) {name} direct: building the encoder panicked: {p}", pr.kp))?
+            .ok_or_else(|| format!("K={k} (K'={}) {name} direct: solver reports a singular encoding matrix", pr.kp))?;
+        let c_direct = enc.verif_intermediate_symbols();
+        rf::check_intermediate(&pr, &c_direct, &src).map_err(|m| format!("K={k} (K'={}) {name} direct: {m}", pr.kp))?;
+        st.eval();
+        st.nt(crate::util::fnv_str(&format!("{k}/{name}/direct/{}", it.one_hot)));
+        // plan replay
+        let plan = catch(|| SourceBlockEncodingPlan::verif_generate(k as u16, thr))
+            .map_err(|p| format!("K={k} (K'={}) {name}: generating a plan panicked: {p}", pr.kp))?;
+        let enc2 = catch(|| SourceBlockEncoder::with_encoding_plan(0, &cfg, &data, &plan))
+            .map_err(|p| format!("K={k} (K'={}) {name}: replaying a plan panicked: {p}", pr.kp))?;
+        let c_plan = enc2.verif_intermediate_symbols();
+        rf::check_intermediate(&pr, &c_plan, &src).map_err(|m| format!("K={k} (K'={}) {name} plan replay: {m}", pr.kp))?;
+        st.eval();
+        st.nt(crate::util::fnv_str(&format!("{k}/{name}/replay/{}", it.one_hot)));
+        if c_plan != c_direct {
+            return Err(format!("K={k} (K'={}) {name}: plan replay and direct solve give different intermediate symbols", pr.kp));
+        }
+        if enc != enc2 {
+            return Err(format!("K={k} (K'={}) {name}: encoders from direct solve and plan replay are not equal", pr.kp));
+        }
+        all.push((name.to_string(), c_direct));
+    }
+    if all.len() == 2 && all[0].1 != all[1].1 {
+        return Err(format!("K={k} (K'={}): dense and sparse back-ends give different intermediate symbols", pr.kp));
+    }
+    // production entry points (threshold 250, cache) for the same data
+    if it.sparse {
+        let plan = catch(|| SourceBlockEncodingPlan::generate(k as u16)).map_err(|p| format!("K={k}: SourceBlockEncodingPlan::generate panicked: {p}"))?;
+        let e1 = catch(|| SourceBlockEncoder::with_encoding_plan(0, &cfg, &data, &plan)).map_err(|p| format!("K={k}: with_encoding_plan panicked: {p}"))?;
+        let c1 = e1.verif_intermediate_symbols();
+        if c1 != all[0].1 {
+            return Err(format!("K={k} (K'={}): production plan gives different intermediate symbols than the direct solve", pr.kp));
+        }
+        st.eval();
+        st.nt(crate::util::fnv_str(&format!("{k}/production/replay/{}", it.one_hot)));
+        if k <= 2000 {
+            let e2 = catch(|| SourceBlockEncoder::new(0, &cfg, &data)).map_err(|p| format!("K={k}: SourceBlockEncoder::new panicked: {p}"))?;
+            if e2 != e1 {
+                return Err(format!("K={k}: SourceBlockEncoder::new differs from with_encoding_plan(generate(K))"));
+            }
+            st.eval();
+        }
+    }
+    st.class_if(it.dense, "dense back-end");
+    st.class_if(it.sparse, "sparse back-end");
+    st.class_if(k < pr.kp, "one padding symbol (K = K'-1)");
+    st.class_if(it.one_hot, "one-hot data");
+    st.sample(|| json!({"K": k, "K'": pr.kp, "L": pr.l, "T": it.t, "dense": it.dense, "sparse": it.sparse, "one_hot": it.one_hot}));
+    Ok(())
+}
+
+pub fn run(ctx: &Ctx, rep: &mut Report) {
+    rep.rule = "enumeration of all 477 K' of Table 2 (and K = K'-1 for each): encoders are built by direct solve and by plan replay on the sparse back-end (all K') and on the dense back-end (K' <= 6000 quick, all K' thorough), from random T=3 data and (quick: for K' <= 3000 and every 5th larger K') from one-hot data and with K = K'-1; every set of intermediate symbols is checked against all S LDPC, H HDPC and K' LT relations evaluated by the reference model; direct == replay, dense == sparse, production plan == direct. Each (K, back-end, mode, data class) is a distinct non-trivial case.".into();
+    rep.exhaustive = true;
+    rep.assumptions.push("exhaustive over K' (all 477) and K'-1; data is sampled (the relations are linear in the data: C09)".into());
+    if ctx.tier == Tier::Quick {
+        rep.assumptions.push("quick tier: dense back-end only for K' <= 6000 (dense solve at K'=56403 takes 48 s); thorough covers all".into());
+    }
+    let mut rng = SplitMix::new(crate::util::mix(ctx.seed, 606));
+    let dense_limit = ctx.tier.pick(6000u32, 60000);
+    let mut items = vec![];
+    // big ones first so that the long poles start early
+    let mut kps: Vec<u32> = rf::tables().t2.iter().map(|r| r.0).collect();
+    kps.reverse();
+    let phase = (crate::util::mix(ctx.seed, 6) % 5) as usize;
+    for (i, kp) in kps.into_iter().enumerate() {
+        let dense = kp <= dense_limit;
+        items.push(Item { k: kp, t: 3, one_hot: false, seed: rng.next_u64(), dense, sparse: true });
+        // quick tier: the two extra data/padding variants for every K' <= 3000 and every 5th above
+        let extra = ctx.tier == Tier::Thorough || kp <= 3000 || i % 5 == phase;
+        if extra {
+            items.push(Item { k: kp, t: 1, one_hot: true, seed: rng.next_u64(), dense: dense && kp <= 2000, sparse: true });
+            items.push(Item { k: kp - 1, t: 2, one_hot: false, seed: rng.next_u64(), dense: dense && kp <= 3000, sparse: true });
+        }
+    }
+    // limit concurrent giants: dense at K' > 20000 needs ~400 MB each; rayon with 16 threads is fine (<= 7 GB)
+    let mut out = run_items(&items, |it, st| {
+        let r = match catch(|| check_item(it, st)) {
+            Ok(r) => r,
+            Err(p) => Err(format!("K={}: panic: {p}", it.k)),
+        };
+        r.map_err(|m| {
+            let kind = if m.contains("relation") {
+                "constraint"
+            } else if m.contains("singular") {
+                "singular"
+            } else if m.contains("panic") {
+                "panic"
+            } else {
+                "mismatch"
+            };
+            simple_failure("encodable", m, format!("encodable:{kind}"), json!({"k": it.k, "t": it.t, "one_hot": it.one_hot, "seed": it.seed, "dense": it.dense, "sparse": it.sparse}))
+        })
+    });
+    out.failures.sort_by_key(|f| f.case["k"].as_u64().unwrap_or(0));
+    out.failures.truncate(1);
+    rep.absorb("encodable", out);
+}
+
+pub fn replay(_sub: &str, case: &Value) -> Result<(), String> {
+    check_item(
+        &Item {
+            k: case["k"].as_u64().unwrap() as u32,
+            t: case["t"].as_u64().unwrap() as usize,
+            one_hot: case["one_hot"].as_bool().unwrap(),
+            seed: case["seed"].as_u64().unwrap(),
+            dense: case["dense"].as_bool().unwrap(),
+            sparse: case["sparse"].as_bool().unwrap(),
+        },
+        &mut Stats::new(),
+    )
 }
